@@ -113,6 +113,22 @@ def seg_nonterminals(G):
 NUM_NTS = ("u_word_num", "s_word_num", "u_byte_num", "s_byte_num")
 
 
+def addr_part_nonterminal(G, nt, reg_nts, seg_nts, depth=0):
+    """every alternative consists of punctuation, address-register / segment / numeral nonterminals or other such parts"""
+    if depth > 4 or nt not in G.nts:
+        return False
+    for p in G.productions(nt):
+        for x in p["symbols"]:
+            if x["t"] == "term":
+                continue
+            n = x["name"]
+            if n in reg_nts or n in seg_nts or n in NUM_NTS:
+                continue
+            if not addr_part_nonterminal(G, n, reg_nts, seg_nts, depth + 1):
+                return False
+    return True
+
+
 def run(ctx, chk):
     chk.explanation = EXPL
     chk.assumptions += [
@@ -164,7 +180,17 @@ def run(ctx, chk):
                     opts.append((i, "num", {(i,) + pth: kk for pth, kk in ch.items()}, []))
                 per_sym.append(opts)
             else:
-                per_sym.append([(i, "other", {}, [])])
+                # a nonterminal that assembles part of the address from registers and numbers (e.g. `mem_offset`,
+                # `base_reg_pair`): enumerate its alternatives down to the terminals, like the register nonterminals
+                opts = None
+                if addr_part_nonterminal(G, s["name"], REG_NTS, SEG_NTS):
+                    try:
+                        ex = expand_choices(G, s["name"])
+                        if len(ex) <= 400:
+                            opts = [(i, "mixed", {(i,) + pth: kk for pth, kk in ch.items()}, terms) for ch, terms in ex]
+                    except RecursionError:
+                        opts = None
+                per_sym.append(opts or [(i, "other", {}, [])])
         import itertools
         for combo in itertools.product(*per_sym):
             choice = {}
@@ -176,6 +202,11 @@ def run(ctx, chk):
                     seg = names[0]
                 elif kind == "reg":
                     regs += names
+                elif kind == "mixed":
+                    regs += [t_ for t_ in names if t_ in ("bx", "bp", "si", "di")]
+                    sg = [t_ for t_ in names if t_ in ("cs", "ds", "es", "ss")]
+                    if sg:
+                        seg = sg[0]
             regs = [r for r in regs if r in ("bx", "bp", "si", "di")]
 
             def chooser(path, n, prods, choice=choice):
